@@ -608,3 +608,309 @@ Proof.
     + unfold touched. rewrite Ha. exact I.
     + intros [Hx _]. discriminate.
 Qed.
+
+(* ================================================================ C14_checksum *)
+Lemma dfile_eq_dec : forall x y : dfile, {x = y} + {x <> y}.
+Proof. decide equality; [decide equality; apply N.eq_dec|apply Z.eq_dec|apply N.eq_dec]. Qed.
+
+Lemma mapM_only_err : forall A B (f : A -> M B) (dec : forall x y : A, {x = y} + {x <> y}) l x e,
+  (forall y, In y l -> y <> x -> exists t, fst (f y) = Ok t) -> In x l -> fst (f x) = Err e ->
+  fst (mapM f l) = Err e.
+Proof.
+  intros A B f dec l x e. induction l as [|h tl IH]; intros Hothers Hin Hx; [contradiction|]. simpl.
+  destruct (dec h x) as [->|Hne].
+  - apply bind_fst_err. exact Hx.
+  - destruct (Hothers h (or_introl eq_refl) Hne) as [t Ht]. rewrite (bind_fst_ok _ _ _ _ _ Ht).
+    apply bind_fst_err. apply IH.
+    + intros y Hy Hyx. apply Hothers; [right; exact Hy|exact Hyx].
+    + destruct Hin as [->|Hin]; [contradiction|exact Hin].
+    + exact Hx.
+Qed.
+
+Lemma read_data_corrupt : forall E st df b d,
+  st (dpath df) = Present b -> dsum df = Some d -> sha E b <> d -> fst (read_data E st true df) = Err ECorrupt.
+Proof.
+  intros E st df b d Hp Hd Hs. unfold read_data, data_site. rewrite Hd.
+  assert (Hg : fst (st_get st (dpath df) (OpRead, 0%nat)) = Ok b) by (unfold st_get; rewrite Hp; reflexivity).
+  rewrite (bind_fst_ok _ _ _ _ _ Hg). destruct (N.eqb (sha E b) d) eqn:He; [apply N.eqb_eq in He; contradiction|reflexivity].
+Qed.
+
+Lemma data_stage_fst : forall E st a v dfs,
+  fst (data_stage E st a v dfs) = fst (tabs <- mapM (read_data E st v) dfs ;; ret (List.concat tabs)).
+Proof.
+  intros E st a v dfs. destruct a; try reflexivity. unfold data_stage.
+  destruct (fst (par_map (read_data E st v) dfs)) as [t|e] eqn:Hp.
+  - rewrite (bind_fst_ok _ _ _ _ _ Hp). rewrite par_map_fst in Hp. rewrite (bind_fst_ok _ _ _ _ _ Hp). reflexivity.
+  - rewrite (bind_fst_err _ _ _ _ _ Hp). rewrite par_map_fst in Hp. rewrite (bind_fst_err _ _ _ _ _ Hp). reflexivity.
+Qed.
+
+Lemma run_data_err : forall E st a o dfs e,
+  reads_data a = true -> fst (get_all_data_files E st) = Ok dfs ->
+  fst (mapM (read_data E st (verify o)) dfs) = Err e -> fst (run E st a o) = Err e.
+Proof.
+  intros E st a o dfs e Hr Hg Hm. unfold run. rewrite (bind_fst_ok _ _ _ _ _ Hg).
+  assert (Hd : fst (data_stage E st a (verify o) dfs) = Err e).
+  { rewrite data_stage_fst. apply bind_fst_err. exact Hm. }
+  destruct a; try (apply bind_fst_err; exact Hd). discriminate.
+Qed.
+
+Theorem checksum_detects : forall E st a o dfs df b orig,
+  verify o = true -> reads_data a = true ->
+  fst (get_all_data_files E st) = Ok dfs -> In df dfs ->
+  dsum df = Some (sha E orig) -> st (dpath df) = Present b -> b <> orig ->
+  (sha E b = sha E orig -> b = orig) ->
+  fst (read_data E st true df) = Err ECorrupt
+  /\ (exists e, out (read_current E st a o) = Err e)
+  /\ ((forall df', In df' dfs -> df' <> df -> exists t, fst (read_data E st true df') = Ok t) ->
+      out (read_current E st a o) = Err ECorrupt).
+Proof.
+  intros E st a o dfs df b orig Hv Hr Hg Hin Hsum Hp Hne Hcf.
+  assert (Hc : fst (read_data E st true df) = Err ECorrupt).
+  { eapply read_data_corrupt; eauto. }
+  split; [exact Hc|]. unfold read_current. simpl. split.
+  - destruct (mapM_err _ _ (read_data E st true) dfs df ECorrupt Hin Hc) as [e He]. exists e.
+    apply (run_data_err E st a o dfs e Hr Hg). rewrite Hv. exact He.
+  - intro Hothers. apply (run_data_err E st a o dfs ECorrupt Hr Hg). rewrite Hv.
+    apply (mapM_only_err _ _ _ dfile_eq_dec dfs df ECorrupt); assumption.
+Qed.
+
+(* ================================================================ C14_untouched: locality *)
+(* a store-indexed program depends on the store only through the keys in its own trace *)
+Definition local {A} (p : store -> M A) : Prop :=
+  forall st st', (forall k, In k (map fst (snd (p st))) -> st' k = st k) -> p st' = p st.
+
+Lemma local_const : forall A (m : M A), local (fun _ => m).
+Proof. intros A m st st' _. reflexivity. Qed.
+
+Lemma local_exists : forall k s, local (fun st => st_exists st k s).
+Proof.
+  intros k s st st' H. assert (He : st' k = st k).
+  { apply H. unfold st_exists. destruct (st k) as [| |s' b]; [left; reflexivity|left; reflexivity|].
+    destruct (site_eqb s s'); left; reflexivity. }
+  unfold st_exists. rewrite He. reflexivity.
+Qed.
+
+Lemma local_get : forall k s, local (fun st => st_get st k s).
+Proof.
+  intros k s st st' H. assert (He : st' k = st k).
+  { apply H. unfold st_get. destruct (st k) as [| |s' b]; [left; reflexivity|left; reflexivity|].
+    destruct (site_eqb s s'); left; reflexivity. }
+  unfold st_get. rewrite He. reflexivity.
+Qed.
+
+Lemma local_bind : forall A B (m : store -> M A) (f : A -> store -> M B),
+  local m -> (forall a, local (f a)) -> local (fun st => bind (m st) (fun a => f a st)).
+Proof.
+  intros A B m f Hm Hf st st' H. unfold bind in *. destruct (fst (m st)) as [a|e] eqn:Hfst; simpl in H.
+  - assert (Hm' : m st' = m st).
+    { apply Hm. intros k Hk. apply H. rewrite map_app. apply in_or_app. left. exact Hk. }
+    assert (Hf' : f a st' = f a st).
+    { apply Hf. intros k Hk. apply H. rewrite map_app. apply in_or_app. right. exact Hk. }
+    rewrite Hm', Hfst, Hf'. reflexivity.
+  - assert (Hm' : m st' = m st) by (apply Hm; exact H). rewrite Hm', Hfst. reflexivity.
+Qed.
+
+Lemma local_mapM : forall A B (f : A -> store -> M B) l, (forall x, local (f x)) -> local (fun st => mapM (fun x => f x st) l).
+Proof.
+  intros A B f l Hf. induction l as [|x tl IH]; simpl; [apply local_const|].
+  apply (local_bind _ _ (f x) (fun y st => ys <- mapM (fun x0 => f x0 st) tl ;; ret (y :: ys))); [apply Hf|].
+  intro y. apply (local_bind _ _ (fun st => mapM (fun x0 => f x0 st) tl) (fun ys _ => ret (y :: ys))); [exact IH|].
+  intro ys. apply local_const.
+Qed.
+
+Lemma local_par_map : forall A B (f : A -> store -> M B) l, (forall x, local (f x)) -> local (fun st => par_map (fun x => f x st) l).
+Proof.
+  intros A B f l Hf st st' H. unfold par_map in *. simpl in H.
+  assert (Hall : forall x, In x l -> f x st' = f x st).
+  { intros x Hx. apply Hf. intros k Hk. apply H. rewrite concat_map. apply in_concat.
+    exists (map fst (snd (f x st))). split; [|exact Hk]. rewrite map_map. apply in_map_iff. exists x. auto. }
+  f_equal.
+  - f_equal. apply map_ext_in. intros x Hx. rewrite (Hall x Hx). reflexivity.
+  - f_equal. apply map_ext_in. intros x Hx. rewrite (Hall x Hx). reflexivity.
+Qed.
+
+Lemma local_ext : forall A (p q : store -> M A), (forall st, p st = q st) -> local p -> local q.
+Proof. intros A p q Heq Hp st st' H. rewrite <- !Heq. apply Hp. intros k Hk. apply H. rewrite <- Heq. exact Hk. Qed.
+
+Lemma local_avro_stage : forall A k (parse : bytes -> avro A) classes, local (fun st => avro_stage st k parse classes).
+Proof.
+  intros A k parse classes st st' H. unfold avro_stage in *.
+  assert (Hg : st_get st' k (OpOpen, 0%nat) = st_get st k (OpOpen, 0%nat)).
+  { apply local_get. intros k0 Hk0. apply H.
+    destruct (fst (st_get st k (OpOpen, 0%nat))) as [b|e].
+    - destruct (parse b) as [a|mro]; [exact Hk0|]. destruct (caught classes mro); exact Hk0.
+    - destruct (caught classes (mro_of e)); exact Hk0. }
+  rewrite Hg. reflexivity.
+Qed.
+
+Lemma local_two_stage : forall A k (av : bytes -> avro A) js classes, local (fun st => two_stage st k av js classes).
+Proof.
+  intros A k av js classes. unfold two_stage.
+  apply (local_bind _ _ (fun st => st_exists st k (OpExists, 1%nat))
+           (fun ex st => if negb ex then fail ENotFound else
+                         a <- avro_stage st k av classes ;;
+                         match a with Some x => ret x | None => b <- st_get st k (OpRead, 0%nat) ;;
+                                                            match js b with Some x => ret x | None => fail EParse end end));
+    [apply local_exists|].
+  intros [|]; simpl; [|apply local_const].
+  apply (local_bind _ _ (fun st => avro_stage st k av classes)
+           (fun a st => match a with Some x => ret x | None => b <- st_get st k (OpRead, 0%nat) ;;
+                                                      match js b with Some x => ret x | None => fail EParse end end));
+    [apply local_avro_stage|].
+  intros [x|]; [apply local_const|].
+  apply (local_bind _ _ (fun st => st_get st k (OpRead, 0%nat)) (fun b _ => match js b with Some x => ret x | None => fail EParse end));
+    [apply local_get|]. intro b. apply local_const.
+Qed.
+
+Lemma local_resolve : forall E r, local (fun st => resolve E st r).
+Proof.
+  intros E r. unfold resolve.
+  apply (local_bind _ _ (fun st => st_exists st HINT (OpExists, r))
+    (fun ex st =>
+       hinted <- (if ex then b <- st_get st HINT (OpRead, r) ;; ret (parse_hint E b) else ret None) ;;
+       target <- match hinted with
+                 | Some mk => ex2 <- st_exists st mk (OpExists, r) ;;
+                              if ex2 then ret (Some mk) else (Ok (recovered E), [(METADIR, (OpList, r))])
+                 | None => (Ok (recovered E), [(METADIR, (OpList, r))])
+                 end ;;
+       match target with
+       | None => ret None
+       | Some mk => b <- st_get st mk (OpRead, r) ;;
+                    match parse_meta E b with Some md => ret (Some md) | None => fail EParse end
+       end)); [apply local_exists|].
+  intro ex.
+  apply (local_bind _ _ (fun st => if ex then b <- st_get st HINT (OpRead, r) ;; ret (parse_hint E b) else ret None)
+    (fun hinted st =>
+       target <- match hinted with
+                 | Some mk => ex2 <- st_exists st mk (OpExists, r) ;;
+                              if ex2 then ret (Some mk) else (Ok (recovered E), [(METADIR, (OpList, r))])
+                 | None => (Ok (recovered E), [(METADIR, (OpList, r))])
+                 end ;;
+       match target with
+       | None => ret None
+       | Some mk => b <- st_get st mk (OpRead, r) ;;
+                    match parse_meta E b with Some md => ret (Some md) | None => fail EParse end
+       end)).
+  - destruct ex; [|apply local_const].
+    apply (local_bind _ _ (fun st => st_get st HINT (OpRead, r)) (fun b _ => ret (parse_hint E b))); [apply local_get|].
+    intro b. apply local_const.
+  - intro hn.
+    apply (local_bind _ _ (fun st => match hn with
+                 | Some mk => ex2 <- st_exists st mk (OpExists, r) ;;
+                              if ex2 then ret (Some mk) else (Ok (recovered E), [(METADIR, (OpList, r))])
+                 | None => (Ok (recovered E), [(METADIR, (OpList, r))])
+                 end)
+       (fun target st => match target with
+       | None => ret None
+       | Some mk => b <- st_get st mk (OpRead, r) ;;
+                    match parse_meta E b with Some md => ret (Some md) | None => fail EParse end
+       end)).
+    + destruct hn as [mk|]; [|apply local_const].
+      apply (local_bind _ _ (fun st => st_exists st mk (OpExists, r))
+               (fun ex2 _ => if ex2 then ret (Some mk) else (Ok (recovered E), [(METADIR, (OpList, r))]))); [apply local_exists|].
+      intro ex2. apply local_const.
+    + intros [mk|]; [|apply local_const].
+      apply (local_bind _ _ (fun st => st_get st mk (OpRead, r))
+               (fun b _ => match parse_meta E b with Some md => ret (Some md) | None => fail EParse end)); [apply local_get|].
+      intro b. apply local_const.
+Qed.
+
+Lemma local_manifest_step : forall E mref, local (fun st => manifest_step E st mref).
+Proof.
+  intros E [m|]; simpl; [|apply local_const].
+  apply (local_bind _ _ (fun st => st_exists st m (OpExists, 0%nat))
+           (fun ex st => if negb ex then fail EInconsistent else read_manifest E st m)); [apply local_exists|].
+  intros [|]; simpl; [|apply local_const]. unfold read_manifest. apply local_two_stage.
+Qed.
+
+Lemma local_get_all : forall E, local (fun st => get_all_data_files E st).
+Proof.
+  intro E. unfold get_all_data_files.
+  apply (local_bind _ _ (fun st => resolve E st 0)
+    (fun r0 st => match (match r0 with Some md => find_snap md | None => None end) with
+       | None => r1 <- resolve E st 1 ;;
+                 match r1 with
+                 | Some md => match mcur md with Some id => if id =? -1 then ret [] else fail EInconsistent | None => ret [] end
+                 | None => ret [] end
+       | Some s => ex <- st_exists st (slist s) (OpExists, 0%nat) ;;
+                   if negb ex then fail EInconsistent else
+                   ms <- read_list E st (slist s) ;;
+                   dfss <- mapM (manifest_step E st) ms ;;
+                   ret (dedupe (List.concat dfss))
+       end)); [apply local_resolve|].
+  intro r0. destruct (match r0 with Some md => find_snap md | None => None end) as [s|].
+  - apply (local_bind _ _ (fun st => st_exists st (slist s) (OpExists, 0%nat))
+      (fun ex st => if negb ex then fail EInconsistent else
+                    ms <- read_list E st (slist s) ;; dfss <- mapM (manifest_step E st) ms ;; ret (dedupe (List.concat dfss))));
+      [apply local_exists|].
+    intros [|]; simpl; [|apply local_const].
+    apply (local_bind _ _ (fun st => read_list E st (slist s))
+      (fun ms st => dfss <- mapM (manifest_step E st) ms ;; ret (dedupe (List.concat dfss))));
+      [unfold read_list; apply local_two_stage|].
+    intro ms.
+    apply (local_bind _ _ (fun st => mapM (manifest_step E st) ms) (fun dfss _ => ret (dedupe (List.concat dfss)))).
+    + apply (local_mapM _ _ (fun mref st => manifest_step E st mref)). intro x. apply local_manifest_step.
+    + intro dfss. apply local_const.
+  - apply (local_bind _ _ (fun st => resolve E st 1)
+      (fun r1 _ => match r1 with
+                 | Some md => match mcur md with Some id => if id =? -1 then ret [] else fail EInconsistent | None => ret [] end
+                 | None => ret [] end)); [apply local_resolve|].
+    intro r1. apply local_const.
+Qed.
+
+Lemma local_read_data : forall E v df, local (fun st => read_data E st v df).
+Proof.
+  intros E v df. unfold read_data.
+  apply (local_bind _ _ (fun st => st_get st (dpath df) (data_site v df))
+    (fun b _ => match v, dsum df with
+                | true, Some d => if N.eqb (sha E b) d
+                                  then match parquet E b with PqOk rows => ret rows | PqFail _ => fail EParse end
+                                  else fail ECorrupt
+                | _, _ => match parquet E b with PqOk rows => ret rows | PqFail _ => fail EParse end
+                end)); [apply local_get|].
+  intro b. apply local_const.
+Qed.
+
+Lemma local_data_stage : forall E a v dfs, local (fun st => data_stage E st a v dfs).
+Proof.
+  intros E a v dfs. unfold data_stage.
+  assert (Hseq : local (fun st => tabs <- mapM (read_data E st v) dfs ;; ret (List.concat tabs))).
+  { apply (local_bind _ _ (fun st => mapM (read_data E st v) dfs) (fun tabs _ => ret (List.concat tabs))).
+    - apply (local_mapM _ _ (fun df st => read_data E st v df)). intro df. apply local_read_data.
+    - intro tabs. apply local_const. }
+  destruct a; try exact Hseq.
+  apply (local_bind _ _ (fun st => par_map (read_data E st v) dfs) (fun tabs _ => ret (List.concat tabs))).
+  - apply (local_par_map _ _ (fun df st => read_data E st v df)). intro df. apply local_read_data.
+  - intro tabs. apply local_const.
+Qed.
+
+Lemma local_run : forall E a o, local (fun st => run E st a o).
+Proof.
+  intros E a o. unfold run.
+  apply (local_bind _ _ (fun st => get_all_data_files E st)
+    (fun dfs st => match a with
+                   | RowCount => ret (ACount (fold_right Z.add 0 (map dcount dfs)))
+                   | _ => rows <- data_stage E st a (verify o) dfs ;; ret (ARows rows)
+                   end)); [apply local_get_all|].
+  intro dfs.
+  assert (Hd : local (fun st => rows <- data_stage E st a (verify o) dfs ;; ret (ARows rows))).
+  { apply (local_bind _ _ (fun st => data_stage E st a (verify o) dfs) (fun rows _ => ret (ARows rows)));
+      [apply local_data_stage|intro rows; apply local_const]. }
+  destruct a; try exact Hd. apply local_const.
+Qed.
+
+Theorem untouched : forall E st st' a o,
+  (forall k, In k (map fst (trace (read_current E st a o))) -> st' k = st k) ->
+  out (read_current E st' a o) = out (read_current E st a o)
+  /\ trace (read_current E st' a o) = trace (read_current E st a o).
+Proof.
+  intros E st st' a o H. unfold read_current in *. simpl in *.
+  rewrite (local_run E a o st st' H). split; reflexivity.
+Qed.
+
+(* row_count touches exactly what the metadata stage touches: no data file *)
+Lemma row_count_trace : forall E st o, trace (read_current E st RowCount o) = snd (get_all_data_files E st).
+Proof.
+  intros E st o. unfold read_current, run. simpl. unfold bind.
+  destruct (fst (get_all_data_files E st)); simpl; [rewrite app_nil_r|]; reflexivity.
+Qed.
